@@ -42,6 +42,8 @@ python3 translator/py2coq_ccv.py "$REPO/src/lcm" coq/Gen >> build/translator.log
 echo "translator_ccv_status=$?" >> build/translator.log
 python3 translator/py2coq_panel.py "$REPO/src/lcm" coq/Gen >> build/translator.log 2>&1
 echo "translator_panel_status=$?" >> build/translator.log
+python3 translator/py2coq_idx.py "$REPO/src/lcm" coq/Gen >> build/translator.log 2>&1
+echo "translator_idx_status=$?" >> build/translator.log
 cd coq
 if [ ! -f Makefile ] || [ _CoqProject -nt Makefile ]; then
   coq_makefile -f _CoqProject -o Makefile > ../build/coq_makefile.log 2>&1
